@@ -818,7 +818,7 @@ class VCGen:
             return [e[1]]
         if e[0] == 'field':
             return self.lv_path(e[1]) + [e[2]]
-        if e[0] == 'un' and e[1] == 'deref':
+        if e[0] == 'un' and e[1] in ('deref', 'addr'):
             return self.lv_path(e[2])
         raise Unsupported("lvalue %r" % (e[0],))
 
@@ -850,14 +850,15 @@ class VCGen:
         k = e[0]
         if k == 'num':
             return Val(smt_int(e[1]), 'I', e[2])
-        if k == 'var' or k == 'field' or (k == 'un' and e[1] == 'deref'):
-            if k == 'field' and e[1][0] in ('call', 'retval', 'complit', 'index'):
-                base = self.ev(e[1], st, line)
-                if isinstance(base, dict):
-                    return base[e[2]]
-                raise Unsupported("field of non-struct")
-            v = self.lookup(st, self.lv_path(e))
-            return v
+        if k == 'var':
+            return self.lookup(st, [e[1]])
+        if k == 'un' and e[1] in ('deref', 'addr'):
+            return self.ev(e[2], st, line)
+        if k == 'field':
+            base = self.ev(e[1], st, line)
+            if isinstance(base, dict) and e[2] in base:
+                return base[e[2]]
+            raise Unsupported("field %s of non-struct" % e[2])
         if k == 'retval':
             return st.env['__retval']
         if k == 'old':
@@ -896,8 +897,6 @@ class VCGen:
             op = e[1]
             if op == '!':
                 return Val(S('not', as_bool(self.ev(e[2], st, line))), 'B', INT)
-            if op == 'addr':
-                return self.ev(e[2], st, line)  # &x of a struct passed by reference: struct itself
             v = self.ev(e[2], st, line)
             ct = self.promote(v.ct)
             t = as_int(v)
@@ -1067,7 +1066,9 @@ class VCGen:
             env2['__retval'] = rv
             env2['__old'] = env
             for en in f['ensures']:
-                st.guard.append(as_bool(self.ev(en, State(env2, st.guard), line)))
+                post = as_bool(self.ev(en, State(env2, list(st.guard)), line))
+                # recorded globally (guarded by the current path) so that it survives sub-expression contexts (?:, &&, ||)
+                self.defs.append(S('=>', self.conj(st.guard), post) if st.guard else post)
             return rv
         # inline (spec helper)
         if self.inline_depth <= 0:
@@ -1358,21 +1359,53 @@ def parse_model(out):
     return model
 
 
+SOLVERS = (('z3-new', lambda t: ['z3-new', '-in', '-T:%d' % t]),
+           ('cvc5', lambda t: ['cvc5', '--lang=smt2', '--produce-models', '--nl-ext-tplanes', '--tlimit=%d' % (t * 1000), '-']))
+
+
 def discharge(o, timeout=60, want_sat=False):
-    """returns status in {'proved','failed','unknown'}; tries z3-new then cvc5"""
+    """race z3-new and cvc5 on the same query; first decisive answer (unsat/sat) wins.
+    returns status in {'proved','failed','unknown'}"""
+    import tempfile
     text = o.smt()
-    for name, cmd in (('z3-new', ['z3-new', '-in', '-T:%d' % timeout]),
-                      ('cvc5', ['cvc5', '--lang=smt2', '--produce-models', '--nl-ext-tplanes', '--tlimit=%d' % (timeout * 1000), '-'])):
-        res, out, secs = run_solver(cmd, text, timeout + 5)
-        o.secs += secs
-        if res == 'unsat':
-            o.status, o.solver = 'proved', name
-            return o
-        if res == 'sat':
-            o.status, o.solver = 'failed', name
-            o.model = parse_model(out)
-            return o
-    o.status, o.solver = 'unknown', 'z3-new+cvc5'
+    t0 = time.time()
+    procs = []
+    with tempfile.NamedTemporaryFile('w', suffix='.smt2', delete=False, dir=os.environ.get('INTWP_TMP', '/var/tmp')) as f:
+        f.write(text)
+        path = f.name
+    try:
+        for name, mk in SOLVERS:
+            cmd = mk(timeout)
+            cmd = [c for c in cmd if c not in ('-in', '-')] + [path]
+            procs.append((name, subprocess.Popen(cmd, stdout=subprocess.PIPE, stderr=subprocess.DEVNULL, text=True)))
+        pending = dict(procs)
+        result = None
+        while pending and time.time() - t0 < timeout + 5:
+            for name, p in list(pending.items()):
+                if p.poll() is not None:
+                    out = p.stdout.read().strip()
+                    first = out.split('\n', 1)[0].strip() if out else 'error'
+                    del pending[name]
+                    if first in ('unsat', 'sat'):
+                        result = (name, first, out)
+                        break
+            if result:
+                break
+            time.sleep(0.01)
+        for name, p in procs:
+            if p.poll() is None:
+                p.kill()
+                p.wait()
+    finally:
+        os.unlink(path)
+    o.secs = time.time() - t0
+    if result is None:
+        o.status, o.solver = 'unknown', 'z3-new+cvc5'
+    elif result[1] == 'unsat':
+        o.status, o.solver = 'proved', result[0]
+    else:
+        o.status, o.solver = 'failed', result[0]
+        o.model = parse_model(result[2])
     return o
 
 
@@ -1387,7 +1420,7 @@ def verify_unit(unit, fname, timeout=60, jobs=16, signed_wrap=False, only=None):
     obls = g.run()
     if only:
         obls = [o for o in obls if re.search(only, o.name)]
-    with ThreadPoolExecutor(max_workers=jobs) as ex:
+    with ThreadPoolExecutor(max_workers=max(1, jobs // 2)) as ex:
         list(ex.map(lambda o: discharge(o, timeout), obls))
     # cover query: expecting sat of (defs and reach) i.e. our "goal" negated is reach... goal = not reach; assert not goal = reach
     cov = g.cover
